@@ -61,7 +61,8 @@ package main
 // relayed to this client is the one received on this request's own rendezvous channel (C01, C03).
 //@ func (*proxy).ServeHTTP props(C01,C02,C03,C04,C07)
 //@   local id define 0 0 _ . newID ( )
-//@   local name range 0 0 _ . Header
+//@   local name range 0 0 _ . Trailer
+//@   local name range 0 1 _ . Header
 //@   local p recv 0 0
 //@   local pending define 0 0 newPendingRequest ( _ )
 //@   local r param 0 1
